@@ -324,12 +324,18 @@ def oracle(case, out, tail):
         want = [x["uid"] for x in exp]
         if sorted(got) == sorted(want) and got != want:
             fails.append({"kind": "per_file_order", "file": i})
-    streams_sorted = all(all(key_of(a["ts"]) <= key_of(b["ts"]) for a, b in zip(exp, exp[1:]))
+    # "if each file is ordered by ts the merged stream is ordered by ts": a statement about the events that HAVE a ts
+    # (an event without one - metadata - has no place in time; wherever it is emitted, it does not disturb the order)
+    def timed(seq):
+        return [enc.frac(t) for t in seq if t is not None]
+    streams_sorted = all(all(a <= b for a, b in zip(timed(x["ts"] for x in exp), timed(x["ts"] for x in exp)[1:]))
                          for exp, _, _, _ in specs)
     if streams_sorted:
-        ks = [key_of(o[3]) for o in out]
+        ks = timed(o[3] for o in out)
         if any(a > b for a, b in zip(ks, ks[1:])):
-            fails.append({"kind": "merged_not_ordered", "n_files": len(case)})
+            fails.append({"kind": "merged_not_ordered", "n_files": len(case),
+                          "negative_ts": any(k < 0 for k in ks),
+                          "event_without_ts": any(o[3] is None for o in out)})
     return fails
 
 
@@ -384,7 +390,7 @@ def gen_file(r, fi, maxtok=8):
             f["rank"] = r.choice([0, 1, 4, 6, -1, -3])
         if r.random() < 0.08:
             f["processed"] = True
-    t = r.choice([0, 0, 0, 1, 2, 0.5])
+    t = r.choice([0, 0, 0, 1, 2, 0.5, -3, -7.5, -1])       # (a time axis may start below zero)
     uid = fi * 1000
     for j in range(n):
         uid += 2
